@@ -889,7 +889,7 @@ def run(ctx):
             ctx.violation({"kind": "oracle", "clause": clause, "route": c["route"], "case_kind": c["kind"],
                            "shape": ("bad-flag" if c["scen"]["prog"]["flags"] == "bad" and c["scen"]["fargs"]["parse"] == "ok" else
                                      "list-unwritable" if (c.get("special") == "devfull" and c["scen"]["prog"]["list"]) else c.get("name") or c.get("fail")),
-                           "text": text, "argv": c["args"], "VERIF_SCEN": spec_string({k: tuple(v) for k, v in (c.get("behs") or {}).items()})},
+                           "text": text, "argv": c["args"], "env": c.get("env") or {}, "VERIF_SCEN": spec_string({k: tuple(v) for k, v in (c.get("behs") or {}).items()})},
                           case=case_public(c), extra={"observed": ob})
         if ob["leftovers"] and c["route"] != "compiled" and "-keep" not in c["args"]:
             ctx.notes.append("generated main file left behind after %s" % c["args"])
